@@ -676,6 +676,8 @@ func checkC08(c *Ctx) {
 
 	c.Rule("R9", "a configuration update reaches the data path: the shared holder is updated in place (its pointer is never replaced after construction) and nothing caches a configuration message")
 	checkLiveConfig(c, "R9")
+	c.Rule("R10", "the last hop: every processor applies every endpoint event to its host set (shared with C06.R12) - no add/remove/replace handler has a path that returns without handing the event's list to host.Set")
+	checkEndpointEventsReachSet(c, "R10")
 }
 
 // checkLiveConfig (C08.R9, C13.R9): a running Redis processor applies a configuration update by updating the one
